@@ -190,6 +190,8 @@ Proof.
   - unfold op_search_fwd, with_view, fail, co_opt, co_int. brk; ext_solve.
   - unfold op_search_fwd, with_view, fail, co_opt, co_int. brk; ext_solve.
   - unfold op_lastindexof, with_view, fail, co_opt, co_int. brk; ext_solve.
+  - unfold op_goexport, with_view, fail. brk; ext_solve.
+  - unfold op_goexportwrite, with_view, fail, put_raw. brk; ext_solve.
 Qed.
 
 Lemma jlen_nonneg : forall s0 b, 0 <= jlen s0 b.
